@@ -101,6 +101,12 @@ CLAIMED = {
    text="Histories of in-place transformations, operators between bundle members (operands re-split and reused), complements, clean/split and queries; after every step the touched objects must answer area, signed lengths, box and membership exactly like a deepcopy and like an object rebuilt from their current control points, asking twice gives identical answers, and at the end also ==, containment and an operator with a third shape agree; digests of all answers are byte-identical across fresh interpreters with hash seeds 0/1/2 and warm memo tables.",
    note="Trusted: nothing but the library itself on a fresh object (differential); histories whose operators raise (contact configurations created by reusing results) end there and are counted.",
    ref="4/C10"),
+ "C11": dict(
+   technique="property-based testing with fault injection (Hypothesis draws operands, operation and crash points; sys.settrace raises a BaseException at the k-th internal call); exhaustive invalid-argument grid for the in-place transformations",
+   category="fault_enumeration",
+   text="Crash points are the Python call boundaries inside shapepy/pynurbs during an operation, counted by a dry run; Hypothesis selects them (half inside the dynamic extent of in-place mutations such as invert/split/clean/segments setter) and the injector raises there, as a KeyboardInterrupt or test timeout would; afterwards every operand must carry its original boundary and answer area/membership as before. Invalid arguments of move/scale/rotate are enumerated exhaustively: a rejected call leaves the control points bit-identical.",
+   note="Granularity: call boundaries of Python frames (what the property names), not every bytecode. About 2 300 fired injections per quick run, thousands per thorough run: sampled, not exhaustive, except the invalid-argument grid.",
+   ref="4/C11"),
 }
 NOT_YET = "check not built yet in this round (planned, see DESIGN.md section 4); nothing is claimed for it"
 
@@ -116,7 +122,7 @@ for pid in ids:
         evidence_file="evidence/%s.json" % pid,
         replay_cmd_template="/venv/bin/python run_check.py %s --replay {path}" % pid,
         engine="pbt-driver",
-        level_claimed=dict(category="exploration", text=c["text"], design_ref=c["ref"]),
+        level_claimed=dict(category=c.get("category", "exploration"), text=c["text"], design_ref=c["ref"]),
         level_note=c["note"],
         technique=c["technique"],
     ))
